@@ -90,8 +90,9 @@ def edit(draw, tr):
     k = draw(st.sampled_from(kinds))
     if k == "add":
         d = draw(st.sampled_from(dirs))
-        return {"k": "add", "dir": d, "name": draw(st.sampled_from(NAMES)),
-                "what": draw(st.sampled_from(["f", "f", "d", "l"])), "c": draw(st.sampled_from(["", "z"]))}
+        return {"k": "add", "dir": d, "name": draw(st.sampled_from(NAMES + ["zz1", "zz2"])),
+                "what": draw(st.sampled_from(["f", "f", "d", "l"])), "c": draw(st.sampled_from(["", "z"])),
+                "keep_dir_mtime": draw(st.integers(0, 3)) == 0}
     if k == "remove":
         return {"k": "remove", "path": draw(st.sampled_from([p for p, _ in paths]))}
     if k == "rename":
@@ -122,7 +123,9 @@ def case(draw):
         steps.append(edits)
     return {"tree": tr, "steps": steps, "structure": draw(st.booleans()),
             "patterns": draw(st.lists(st.sampled_from(PATTERNS), min_size=0, max_size=2, unique=True)) if draw(st.booleans()) else [],
-            "jobs": draw(st.sampled_from([None, 4]))}
+            "jobs": draw(st.sampled_from([None, 4])),
+            "fs": draw(st.sampled_from(["default", "default", "device-agnostic", "checksum-only"])),
+            "on_disk": draw(st.integers(0, 2)) == 0}
 
 
 def strategy(tier):
@@ -200,6 +203,7 @@ class Disk:
             rel = e["dir"] + e["name"]
             if os.path.lexists(self.p(rel)) or not os.path.isdir(self.p(e["dir"].rstrip("/"))):
                 return
+            dst = os.lstat(self.p(e["dir"].rstrip("/")))
             if e["what"] == "f":
                 with open(self.p(rel), "w") as f:
                     f.write(e["c"])
@@ -208,7 +212,11 @@ class Disk:
             else:
                 os.symlink("nowhere", self.p(rel))
             self.stamp(rel)
-            self.stamp(e["dir"].rstrip("/"))
+            if e.get("keep_dir_mtime"):
+                # e.g. `cp -p` / `rsync -t` / `tar x`: the entry appears but the directory's mtime is put back
+                os.utime(self.p(e["dir"].rstrip("/")), ns=(dst.st_mtime_ns, dst.st_mtime_ns))
+            else:
+                self.stamp(e["dir"].rstrip("/"))
             return
         rel = e["path"]
         if not os.path.lexists(self.p(rel)):
@@ -279,18 +287,18 @@ class Disk:
                 if not h:
                     vis[r] = rec
                     if rec[0] == "d":
-                        vis["//dirstat/" + r] = ("D", st_.st_mtime_ns, st_.st_mode, 0, "")
+                        vis["//dirstat/" + r] = ("D", st_.st_mtime_ns, st_.st_mode, st_.st_size, st_.st_nlink)
                 if stat.S_ISDIR(st_.st_mode):
                     walk(r, h)
         walk("", False)
         st_ = os.lstat(self.p(""))
         full[""] = ("d", 0, 0, 0, "", st_.st_mtime_ns, st_.st_mode)
-        vis["//dirstat/"] = ("D", st_.st_mtime_ns, st_.st_mode, 0, "")
+        vis["//dirstat/"] = ("D", st_.st_mtime_ns, st_.st_mode, st_.st_size, st_.st_nlink)
         return vis, full
 
 
 def run_case(case, ctx, verbose=False):
-    ws = bm.Workspace(ctx)
+    ws = bm.Workspace(ctx, on_disk=bool(case.get("on_disk")))
     try:
         disk = Disk(ws, "tree")
         disk.create(case["tree"])
@@ -304,6 +312,9 @@ def run_case(case, ctx, verbose=False):
                 "targets": {"t": ["out"]}, "default": "t"}
         if node_attrs:
             desc["nodes"] = {"tree/": node_attrs}
+        fs = case.get("fs", "default")
+        if fs != "default":
+            desc["file_system"] = fs
         bm.write_description(ws, desc)
         r = ws.build(target="t", jobs=case["jobs"])
         if not r.ok:
@@ -311,7 +322,7 @@ def run_case(case, ctx, verbose=False):
         r = ws.build(target="t", jobs=case["jobs"])
         if r.ran():
             return Outcome("null build re-ran the command")
-        cls = ["structure" if case["structure"] else "tree"] + (["patterns"] if case["patterns"] else [])
+        cls = ["structure" if case["structure"] else "tree"] + (["patterns"] if case["patterns"] else []) + ["fs:" + fs]
         nt = False
         pending_mode = False
         for edits in case["steps"]:
@@ -344,13 +355,19 @@ def run_case(case, ctx, verbose=False):
                 # speak of existence, size, mtime, device, inode): a chmod-only change is don't-care
                 # observable = (type, size, mtime) [+ link target]; a same-size in-place rewrite with the
                 # old mtime restored is not observable by stat (C13) and therefore don't-care
-                nomode = lambda d: {p: (v[0], v[1], v[2], v[4] if v[0] == "l" else "") for p, v in d.items()}
+                if fs == "checksum-only":
+                    # only type, size and content are observable; timestamps are not
+                    nomode = lambda d: {p: (v[0], v[1], v[4]) for p, v in d.items()}
+                else:
+                    nomode = lambda d: {p: (v[0], v[1], v[2], v[4] if v[0] == "l" else "") for p, v in d.items()}
                 must = nomode(vis0) != nomode(vis1)
                 # nothing visible changed -- neither a visible entry nor the own stat record of a
                 # visible directory: exclusion patterns hide exactly the matching names, so an edit
                 # confined to hidden entries that leaves the visible directories' stat alone must not
                 # re-run the command
                 must_not = vis0 == vis1 and dirstat0 == dirstat1
+                if fs == "checksum-only" and not must:
+                    must_not = nomode(vis0) == nomode(vis1) and {p: v[0] for p, v in full0.items()} == {p: v[0] for p, v in full1.items()}
             verdict = "must" if must else "must-not" if must_not else "dont-care"
             cls.append(verdict)
             deep = any((e.get("path") or e.get("dir", "")).count("/") >= 1 for e in edits)
